@@ -11,6 +11,7 @@ import (
 func init() {
 	verifRegister("VerifC16_EFmt", VerifC16_EFmt)
 	verifRegister("VerifC16_EFmtFree", VerifC16_EFmtFree)
+	verifRegister("VerifC16_EForms", VerifC16_EForms)
 	verifRegister("VerifC17_EMin", VerifC17_EMin)
 }
 
@@ -200,6 +201,51 @@ func VerifC16_EFmt() {
 	vCover("end")
 }
 
+// GENERATED forms: a solver-chosen head among the names the printer treats specially (the longhand
+// of the #' and #^ shorthands, quote-family operators, definition and binding forms) with 0..arity
+// solver-chosen operands, optionally quoted, optionally nested inside another call.  Whatever the
+// printer does with a form it recognises, the text must read back to the same tree, and formatting
+// it again must change nothing.
+var c16Heads = []string{"lisp:function", "lisp:expr", "function", "expr", "quote", "quasiquote", "unquote", "unquote-splicing", "'lisp:function", "defun", "let", "lambda", "if", "cond", "set", "f"}
+var c16Operands = []string{"f", "(g x)", "'x", "1", "\"s\"", "[1 2]", "%", "()", "#'h", "pkg:name"}
+
+func VerifC16_EForms() {
+	hi := vConcInt(vndChoice("head", len(c16Heads)))
+	arity := vConcInt(vndChoice("arity", vParam("maxarity", 2)+1))
+	form := "(" + c16Heads[hi]
+	for i := 0; i < arity; i++ {
+		nops := len(c16Operands)
+		if i > 0 {
+			nops = vParam("ops2", 4) // later operands from a shorter menu in the quick tier
+		}
+		form += " " + c16Operands[vConcInt(vndChoice("op"+itoa(i), nops))]
+	}
+	form += ")"
+	switch vConcInt(vndChoice("prefix", 3)) {
+	case 1:
+		form = "'" + form
+	case 2:
+		form = "''" + form
+	}
+	if vndBool("nested") {
+		form = "(a " + form + " b)"
+	}
+	src := form + "\n"
+	cfg := c16Config(vConcInt(vndChoice("config", 4)))
+	want, okIn := parseStrict(src)
+	vAssume(okIn) // e.g. #^ applied to nothing: rejected by the reader, covered by EFmtFree
+	out, err := formatter.Format([]byte(src), cfg)
+	vObserve("src", src)
+	vAssert(err == nil, "accepted input formats")
+	vObserve("out", string(out))
+	got, okOut := parseStrict(string(out))
+	vAssert(okOut, "formatted text is accepted by the reader")
+	vAssert(treesEq(got, want), "formatted text reads back to the identical expression trees")
+	out2, err2 := formatter.Format(out, cfg)
+	vAssert(err2 == nil && string(out2) == string(out), "formatting its own output changes nothing")
+	vCover("end")
+}
+
 // arbitrary source bytes: rejected input is rejected without output; accepted input keeps its trees
 func VerifC16_EFmtFree() {
 	n := vndChoice("len", vParam("maxlen", 2)) + 1
@@ -238,6 +284,12 @@ var c17Progs = []string{
 	"(defun twicefn (val) (* val 2)) (labels ((twicefn (num) (if (= num 0) 0 (+ 2 (twicefn (- num 1)))))) (debug-print (twicefn B)))",
 	"(in-package 'router) (defun helperfn (param) (+ param 1)) (in-package 'user) (let ([bound (router:helperfn A)]) (debug-print bound))",
 	"(in-package 'router) (defun helperfn (param) (+ param 1)) (in-package 'user) (debug-print (map 'list (lambda (item) (router:helperfn item)) (list A B)))",
+	// the program's own top-level definitions that reuse a builtin's name
+	"(defun second (lst) (+ 100 (car (cdr lst)))) (debug-print (second (list A B)))",
+	"(in-package 'shapes) (export 'show) (defun length (item) 42) (defun show (item) (format-string \"len={}\" (length item))) (in-package 'user) (debug-print (shapes:show (list A B)))",
+	"(defun first (lst) 'mine) (defun caller (arg) (list (first arg) (rest arg))) (debug-print (caller (list A B)))",
+	"(defmacro reverse (form) (quasiquote (list 'rev (unquote form)))) (debug-print (reverse (+ A B)))",
+	"(set 'nth 5) (defun usevar (arg) (+ arg nth)) (debug-print (usevar A))",
 }
 
 type c17Buf struct{ sb strings.Builder }
